@@ -22,6 +22,34 @@ static int label_verdict(int l) { return l == L_GOOD ? V_GOOD : l == L_WRONG_KEY
 /* chain-shape dimension "the leaf sits under an intermediate CA that is sent along" applies to labels whose defect is in the leaf / the anchor choice */
 static int label_allows_via(int l) { return !(l == L_ISSUER_NOT_CA || l == L_EXPIRED_INT || l == L_ANCHOR_PATHLEN || l == L_INT_PATHLEN || l == L_SELF_SIGNED || l == L_NO_TRUST || (l >= L_N && l != L_LEAF_CRIT_EKU && l != L_AKI_MISMATCH)); }
 
+/* ---- certificate callback modes (shared by all stages).  Contract of sslCertCb_t (matrixsslApiTypes.h), identical for every protocol version:
+ *      0                          accept: clears whatever alert validation left pending
+ *      SSL_ALLOW_ANON_CONNECTION  accept, the peer counts as anonymous
+ *      > 0                        that TLS alert is sent, the handshake ends
+ *      < 0                        internal error: internal_error alert, the handshake ends */
+enum { CB_NONE = 0, CB_STRICT, CB_PERMISSIVE, CB_ANON, CB_N,          /* the ordinary modes: no callback / returns the alert it is shown / returns 0 / returns SSL_ALLOW_ANON_CONNECTION */
+       CB_NEG1 = CB_N, CB_NEG2, CB_NEGBIG, CB_OTHER_ALERT, CB_255, CB_NALL };   /* callbacks that say "do not continue" whatever they are shown */
+static const char *cbname[] = { "no-callback", "strict-callback", "permissive-callback", "allow-anon-callback",
+                                "callback-returns-minus-1", "callback-returns-minus-2", "callback-returns-int32-min", "callback-returns-another-alert", "callback-returns-255" };
+#define CB_REFUSES(m) ((m) >= CB_NEG1)
+#define CB_OVERRIDES(m) ((m) == CB_PERMISSIVE || (m) == CB_ANON)
+static int cb_calls, cb_nonzero, cb_last, cb_chainlen;   /* bookkeeping (single-threaded) */
+static void cb_note(psX509Cert_t *c, int32 alert) { cb_calls++; cb_last = alert; if (alert) cb_nonzero++; cb_chainlen = 0; for (; c; c = c->next) cb_chainlen++; }
+static int32 cb_strict(ssl_t *ssl, psX509Cert_t *c, int32 alert) { (void) ssl; cb_note(c, alert); return alert; }
+static int32 cb_permissive(ssl_t *ssl, psX509Cert_t *c, int32 alert) { (void) ssl; cb_note(c, alert); return 0; }
+static int32 cb_anon(ssl_t *ssl, psX509Cert_t *c, int32 alert) { (void) ssl; cb_note(c, alert); return SSL_ALLOW_ANON_CONNECTION; }
+static int32 cb_neg1(ssl_t *ssl, psX509Cert_t *c, int32 alert) { (void) ssl; cb_note(c, alert); return -1; }
+static int32 cb_neg2(ssl_t *ssl, psX509Cert_t *c, int32 alert) { (void) ssl; cb_note(c, alert); return -2; }
+static int32 cb_negbig(ssl_t *ssl, psX509Cert_t *c, int32 alert) { (void) ssl; cb_note(c, alert); return (int32) (-2147483647 - 1); }
+static int32 cb_other_alert(ssl_t *ssl, psX509Cert_t *c, int32 alert) { (void) ssl; cb_note(c, alert); return alert == SSL_ALERT_ACCESS_DENIED ? SSL_ALERT_INSUFFICIENT_SECURITY : SSL_ALERT_ACCESS_DENIED; }
+static int32 cb_255(ssl_t *ssl, psX509Cert_t *c, int32 alert) { (void) ssl; cb_note(c, alert); return 255; }
+static sslCertCb_t cb_fn(int mode)
+{
+    static const sslCertCb_t f[CB_NALL] = { NULL, cb_strict, cb_permissive, cb_anon, cb_neg1, cb_neg2, cb_negbig, cb_other_alert, cb_255 };
+    return f[mode];
+}
+static void cb_reset(void) { cb_calls = cb_nonzero = cb_last = cb_chainlen = 0; }
+
 #define MINT_MAXCHAIN 6
 typedef struct {
     cg_cert chain[MINT_MAXCHAIN]; int nchain;   /* as the prover presents it, leaf first */
